@@ -393,6 +393,33 @@ def run(ctx):
             dis_model.append((origin, text, m, h))
         if same(s, h) is False:
             dis_spec.append((origin, text, s, h))
+    # the same expressions inside declarations, statements and labels: the tree must not depend on the context ---------
+    CTX = ["decl", "stmt", "arg", "inv", "guard", "update", "update2"]
+    ctx_cases = []
+    for (origin, text, k), m in zip(texts, pm):
+        if origin in ("pair", "min") and m != "REJECT":
+            ctx_cases.append((ctx.rng.choice(CTX), text, m))
+    if len(ctx_cases) > (4000 if not ctx.thorough else 60000):
+        ctx_cases = ctx.rng.sample(ctx_cases, 4000 if not ctx.thorough else 60000)
+    har_fast = core.build_harness(core.build_repo("plain"), "c02p", ["c02.cpp"])     # -O2 build: whole-model parses are slow under ASan
+    rc4, px, e4 = run_lines(har_fast, ["X\t%s\t%s" % (c, t) for c, t, _m in ctx_cases])
+    ctx_count = {}
+    if rc4 != 0 or len(px) != len(ctx_cases):
+        bad = ctx_cases[len(px)] if len(px) < len(ctx_cases) else "?"
+        ctx.finding("crash:parse_in_context", "the real parser died on an expression placed in a %s: %r" % (bad[0], bad[1]),
+                    {"context": bad[0], "text": bad[1], "stderr": e4[-3000:]})
+    else:
+        for (c, t, m), h in sorted(zip(ctx_cases, px), key=lambda z: (len(z[0][1].split()), z[0][1])):
+            r = same(m, h)
+            if r is None:
+                continue
+            ctx_count[c] = ctx_count.get(c, 0) + 1
+            if not r:
+                ctx.finding("context:%s:%s" % (c, shape_key(t)), "expression %r placed in a %s: the document holds %s, the operator table prescribes %s"
+                            % (t, c, h[:300], canon_model(m)[:300]),
+                            {"entry": "parse_XTA(whole model) with the expression as " + c, "context": c, "text": t, "observed": h,
+                             "expected": canon_model(m)})
+    cov["contexts"] = ctx_count
     # literals ------------------------------------------------------------------------------------
     ints, floats = literal_cases(ctx.rng)
     _, li, _ = run_lines(drv, ["L\t" + x for x in ints])
